@@ -1,8 +1,234 @@
-(* Properties_C20.v — C20: successful unsafe requests invalidate cached responses. Statements only. *)
+(* Properties_C20.v — C20: successful unsafe requests invalidate cached responses.
+   Statements only; proofs live in PurgeProofs.v. The method attribute table, PathChars, the %XX text and the case
+   folding come from gen/PurgeMethods_gen.v and gen/PurgeUri_gen.v, regenerated from src/http/RequestMethod.cc and
+   src/anyp/Uri.cc on every run. *)
 Require Import SquidV.Bytes SquidV.PurgeModel SquidV.PurgeProofs.
 Require Import SquidV.gen.PurgeMethods_gen SquidV.gen.PurgeUri_gen.
 Local Open Scope N_scope.
 
-Theorem C20_key_equality_reflexive : forall a, list_eqb a a = true.
-Proof. exact list_eqb_refl. Qed.
-Print Assumptions C20_key_equality_reflexive.
+(* ---------------- which methods invalidate (table sweeps over the regenerated table) ---------------- *)
+Theorem C20_invalidating_methods_purge : forall id, should_invalidate id = true -> purges_others id = true.
+Proof. exact should_invalidate_purges. Qed.
+Print Assumptions C20_invalidating_methods_purge.
+
+Theorem C20_post_put_delete_and_unknown_methods_invalidate :
+  should_invalidate pg_METHOD_POST = true /\ should_invalidate pg_METHOD_PUT = true /\
+  should_invalidate pg_METHOD_DELETE = true /\ should_invalidate pg_METHOD_OTHER = true.
+Proof. exact named_methods_invalidate. Qed.
+Print Assumptions C20_post_put_delete_and_unknown_methods_invalidate.
+
+(* a method token that matches no registered image is METHOD_OTHER, whatever relaxed_header_parser says *)
+Theorem C20_unregistered_method_token_is_other : forall relaxed s,
+  s <> [] -> forallb (fun e => negb (case_eqb (snd (fst e)) s)) pg_methods = true ->
+  method_of_image relaxed s = pg_METHOD_OTHER.
+Proof. exact unknown_method_is_other. Qed.
+Print Assumptions C20_unregistered_method_token_is_other.
+
+(* purgeEntriesByUrl evicts the keys of exactly the methods whose responses this Squid caches: GET and HEAD *)
+Theorem C20_evicted_methods_are_get_and_head : cacheable_ids pg_methods = [pg_METHOD_GET; pg_METHOD_HEAD].
+Proof. exact cacheable_are_get_head. Qed.
+Print Assumptions C20_evicted_methods_are_get_and_head.
+
+(* ---------------- first sentence: the target URL ---------------- *)
+(* every forwarded exchange with a purging method and a reply status < 400 hands the GET and HEAD keys of the request's
+   effective URI to evictIfFound — all requests (any URL form, any cache state of the Uri object), all replies *)
+Theorem C20_target_evicted : forall rq rp m,
+  purges_others (rq_method rq) = true -> rp_status rp < 400 -> In m (cacheable_ids pg_methods) ->
+  In (m, request_uri rq) (evicted_keys rq rp).
+Proof. exact target_evicted. Qed.
+Print Assumptions C20_target_evicted.
+
+(* ... and afterwards no lookup finds them, whatever the store held (POST, PUT, DELETE, unknown methods: shouldInvalidate) *)
+Theorem C20_target_not_served_after_success : forall rq rp s,
+  should_invalidate (rq_method rq) = true -> rp_status rp < 400 ->
+  store_has (evict_all (evicted_keys rq rp) s) (pg_METHOD_GET, request_uri rq) = false /\
+  store_has (evict_all (evicted_keys rq rp) s) (pg_METHOD_HEAD, request_uri rq) = false.
+Proof. exact target_not_served_for_invalidating. Qed.
+Print Assumptions C20_target_not_served_after_success.
+
+(* an unknown extension method evicts the target before it is forwarded, so even when the reply is an error *)
+Theorem C20_unknown_method_evicts_target_whatever_the_reply : forall rq rp m,
+  rq_method rq = pg_METHOD_OTHER -> In m (cacheable_ids pg_methods) -> In (m, request_uri rq) (evicted_keys rq rp).
+Proof. exact other_method_target_evicted. Qed.
+Print Assumptions C20_unknown_method_evicts_target_whatever_the_reply.
+
+Theorem C20_nothing_evicted_without_purging_method : forall rq rp,
+  purges_others (rq_method rq) = false -> (rq_method rq =? pg_METHOD_OTHER) = false -> evicted_keys rq rp = [].
+Proof. exact nothing_evicted_without_purging_method. Qed.
+Print Assumptions C20_nothing_evicted_without_purging_method.
+
+Theorem C20_nothing_evicted_on_error_reply : forall rq rp,
+  400 <= rp_status rp -> (rq_method rq =? pg_METHOD_OTHER) = false -> evicted_keys rq rp = [].
+Proof. exact nothing_evicted_on_error_reply. Qed.
+Print Assumptions C20_nothing_evicted_on_error_reply.
+
+(* the store abstraction: an evicted key is not found afterwards; a key that was not evicted is untouched *)
+Theorem C20_evicted_key_not_found : forall ks s k, In k ks -> store_has (evict_all ks s) k = false.
+Proof. exact evicted_not_in_store. Qed.
+Print Assumptions C20_evicted_key_not_found.
+
+Theorem C20_other_keys_untouched : forall ks s k,
+  (forall k', In k' ks -> key_eqb k k' = false) -> store_has (evict_all ks s) k = store_has s k.
+Proof. exact not_evicted_stays. Qed.
+Print Assumptions C20_other_keys_untouched.
+
+(* ---------------- second sentence: Location / Content-Location ---------------- *)
+(* sameUrlHosts (pointer walk over two C strings) is byte equality of the authorities of scheme://authority/path URLs *)
+Theorem C20_same_url_hosts_is_authority_equality : forall s1 s2 a1 a2 p1 p2,
+  no_byte COLON s1 = true -> no_byte COLON s2 = true -> no_byte SLASH a1 = true -> no_byte SLASH a2 = true -> a1 <> [] ->
+  same_url_hosts (s1 ++ SEP ++ a1 ++ SLASH :: p1) (s2 ++ SEP ++ a2 ++ SLASH :: p2) = list_eqb a1 a2.
+Proof. exact same_url_hosts_spec. Qed.
+Print Assumptions C20_same_url_hosts_is_authority_equality.
+
+(* an absolute URL with the request's authority (byte-identical), any scheme, any path: its GET/HEAD keys are evicted *)
+Theorem C20_location_same_authority_url_evicted_partial : forall rq rp s a s2 p2 m,
+  wf_request rq s a -> purges_others (rq_method rq) = true -> rp_status rp < 400 ->
+  forallb scheme_byte s2 = true -> no_nul (s2 ++ SEP ++ a ++ SLASH :: p2) = true ->
+  rp_location rp = Some (s2 ++ SEP ++ a ++ SLASH :: p2) \/ rp_content_location rp = Some (s2 ++ SEP ++ a ++ SLASH :: p2) ->
+  In m (cacheable_ids pg_methods) ->
+  In (m, s2 ++ SEP ++ a ++ SLASH :: p2) (evicted_keys rq rp).
+Proof. exact location_same_authority_evicted. Qed.
+Print Assumptions C20_location_same_authority_url_evicted_partial.
+
+(* an absolute-path reference: the key evicted is scheme://authority followed by Encode(reference, PathChars) *)
+Theorem C20_location_absolute_path_evicted_partial : forall rq rp s a p m,
+  wf_request rq s a -> purges_others (rq_method rq) = true -> rp_status rp < 400 ->
+  no_nul (SLASH :: p) = true ->
+  rp_location rp = Some (SLASH :: p) \/ rp_content_location rp = Some (SLASH :: p) ->
+  In m (cacheable_ids pg_methods) ->
+  In (m, s ++ SEP ++ a ++ uri_encode pg_PathChars (SLASH :: p)) (evicted_keys rq rp).
+Proof. exact location_absolute_path_evicted. Qed.
+Print Assumptions C20_location_absolute_path_evicted_partial.
+
+(* against the independent RFC 3986 section 5.2 resolver (PurgeProofs.rfc_resolve): references that are already in normal
+   form (no fragment, no dot segments, lower-case scheme and host, path characters only) name exactly the URL evicted *)
+Theorem C20_absolute_path_reference_in_normal_form_partial : forall rq rp s a p m,
+  wf_request rq s a -> purges_others (rq_method rq) = true -> rp_status rp < 400 ->
+  (hd0 p =? SLASH) = false -> strip_fragment (SLASH :: p) = SLASH :: p -> remove_dot_segments (SLASH :: p) = SLASH :: p ->
+  forallb pg_PathChars (SLASH :: p) = true ->
+  rp_location rp = Some (SLASH :: p) \/ rp_content_location rp = Some (SLASH :: p) ->
+  In m (cacheable_ids pg_methods) ->
+  names_same_authority s a (uri_path (rq_url rq)) (SLASH :: p) (s ++ SEP ++ a ++ SLASH :: p) /\
+  In (m, s ++ SEP ++ a ++ SLASH :: p) (evicted_keys rq rp).
+Proof. exact absolute_path_reference_in_normal_form. Qed.
+Print Assumptions C20_absolute_path_reference_in_normal_form_partial.
+
+Theorem C20_absolute_url_in_normal_form_partial : forall rq rp s a p2 m,
+  wf_request rq s a -> purges_others (rq_method rq) = true -> rp_status rp < 400 ->
+  s <> [] -> map lower s = s -> map lower a = a ->
+  strip_fragment (s ++ SEP ++ a ++ SLASH :: p2) = s ++ SEP ++ a ++ SLASH :: p2 ->
+  remove_dot_segments (SLASH :: p2) = SLASH :: p2 -> no_nul (s ++ SEP ++ a ++ SLASH :: p2) = true ->
+  rp_location rp = Some (s ++ SEP ++ a ++ SLASH :: p2) \/ rp_content_location rp = Some (s ++ SEP ++ a ++ SLASH :: p2) ->
+  In m (cacheable_ids pg_methods) ->
+  names_same_authority s a (uri_path (rq_url rq)) (s ++ SEP ++ a ++ SLASH :: p2) (s ++ SEP ++ a ++ SLASH :: p2) /\
+  In (m, s ++ SEP ++ a ++ SLASH :: p2) (evicted_keys rq rp).
+Proof. exact absolute_url_in_normal_form. Qed.
+Print Assumptions C20_absolute_url_in_normal_form_partial.
+
+(* URLs of other authorities are left alone: when the headers name another authority, every cached URL other than the
+   request URL is found exactly as before *)
+Theorem C20_other_authority_untouched : forall rq rp s a s2 a2 p2 t m st,
+  wf_request rq s a -> purges_others (rq_method rq) = true ->
+  forallb scheme_byte s2 = true -> no_byte SLASH a2 = true -> a <> a2 -> no_nul (s2 ++ SEP ++ a2 ++ SLASH :: p2) = true ->
+  (forall h, rp_location rp = Some h \/ rp_content_location rp = Some h -> h = s2 ++ SEP ++ a2 ++ SLASH :: p2) ->
+  t <> request_uri rq ->
+  store_has (evict_all (evicted_keys rq rp) st) (m, t) = store_has st (m, t).
+Proof. exact other_authority_untouched. Qed.
+Print Assumptions C20_other_authority_untouched.
+
+(* ---------------- the second sentence at full strength is FALSE for the code as it is ---------------- *)
+Theorem C20_named_url_always_evicted_refuted : ~ named_url_always_evicted.
+Proof. exact named_url_always_evicted_is_false. Qed.
+Print Assumptions C20_named_url_always_evicted_refuted.
+
+(* POST http://h:8/d/u answered 200 with Location: v — names http://h:8/d/v, which stays cached *)
+Theorem C20_relative_path_reference_refuted : stays_cached (B [118]).
+Proof. exact relative_path_reference_stays. Qed.
+Print Assumptions C20_relative_path_reference_refuted.
+
+(* ... and that is so for EVERY relative-path reference: addRelativePath leaves the cached absolute_ in place, so the
+   request URL is evicted a second time and every other URL of the store (the named one included) is found as before *)
+Theorem C20_relative_path_reference_names_nothing : forall rq rp s a t m st,
+  wf_request rq s a -> purges_others (rq_method rq) = true ->
+  (forall h, rp_location rp = Some h \/ rp_content_location rp = Some h ->
+     no_nul h = true /\ url_is_relative h = true /\ (hd0 h =? SLASH) = false) ->
+  t <> request_uri rq ->
+  store_has (evict_all (evicted_keys rq rp) st) (m, t) = store_has st (m, t).
+Proof. exact relative_path_reference_names_nothing. Qed.
+Print Assumptions C20_relative_path_reference_names_nothing.
+
+(* Location: /d/./v, /d/x/../v, ./v, ../d/v *)
+Theorem C20_dot_segments_refuted :
+  stays_cached (B [47;100;47;46;47;118]) /\ stays_cached (B [47;100;47;120;47;46;46;47;118]) /\
+  stays_cached (B [46;47;118]) /\ stays_cached (B [46;46;47;100;47;118]).
+Proof. exact dot_segments_stay. Qed.
+Print Assumptions C20_dot_segments_refuted.
+
+(* Location: //h:8/d/v *)
+Theorem C20_network_path_reference_refuted : stays_cached (B [47;47;104;58;56;47;100;47;118]).
+Proof. exact network_path_reference_stays. Qed.
+Print Assumptions C20_network_path_reference_refuted.
+
+(* Location: HTTP://h:8/d/v, http://H:8/d/v *)
+Theorem C20_letter_case_refuted :
+  stays_cached (B [72;84;84;80;58;47;47;104;58;56;47;100;47;118]) /\
+  stays_cached (B [104;116;116;112;58;47;47;72;58;56;47;100;47;118]).
+Proof. exact letter_case_stays. Qed.
+Print Assumptions C20_letter_case_refuted.
+
+(* Location: http://h:8/d/v#f, /d/v#f *)
+Theorem C20_fragment_refuted :
+  stays_cached (B [104;116;116;112;58;47;47;104;58;56;47;100;47;118;35;102]) /\ stays_cached (B [47;100;47;118;35;102]).
+Proof. exact fragment_stays. Qed.
+Print Assumptions C20_fragment_refuted.
+
+(* ---------------- component facts ---------------- *)
+(* addRelativePath computes the RFC 3986 5.2.3 merge (base path up to its last "/", then the reference) ... *)
+Theorem C20_add_relative_path_merges : forall u d seg rel,
+  u_urn u = false -> u_path u = d ++ SLASH :: seg -> no_byte SLASH seg = true ->
+  u_path (uri_add_relative_path rel u) = d ++ SLASH :: rel.
+Proof. exact add_relative_path_merges. Qed.
+Print Assumptions C20_add_relative_path_merges.
+
+(* ... but keeps the result caches of absolute() / absolutePath() *)
+Theorem C20_add_relative_path_keeps_caches : forall u rel,
+  u_abs_cache (uri_add_relative_path rel u) = u_abs_cache u /\ u_abspath_cache (uri_add_relative_path rel u) = u_abspath_cache u.
+Proof. exact add_relative_path_keeps_caches. Qed.
+Print Assumptions C20_add_relative_path_keeps_caches.
+
+(* absolute() returns the same text when asked again, whatever the caches held *)
+Theorem C20_effective_request_uri_stable : forall rq,
+  effective_request_uri (snd (effective_request_uri rq)) = effective_request_uri rq.
+Proof. exact eru_idem. Qed.
+Print Assumptions C20_effective_request_uri_stable.
+
+(* the requests the correspondence run feeds to the model satisfy wf_request *)
+Theorem C20_glue_requests_well_formed : forall relaxed meth s a path,
+  forallb scheme_byte s = true -> no_byte SLASH a = true -> a <> [] -> no_nul (s ++ SEP ++ a) = true -> hd0 path = SLASH ->
+  wf_request (request_of relaxed meth s a path) s a.
+Proof. exact request_of_wf. Qed.
+Print Assumptions C20_glue_requests_well_formed.
+
+(* ---------------- hypotheses are satisfiable / the spec behaves ---------------- *)
+Example C20_ex_wf : wf_request w_rq w_http w_auth /\ purges_others (rq_method w_rq) = true.
+Proof. exact (conj w_rq_wf w_rq_purges). Qed.
+Example C20_ex_spec_resolves_plain_references :
+  names_same_authority w_http w_auth w_u (B [47;100;47;118]) w_target /\
+  names_same_authority w_http w_auth w_u (B [104;116;116;112;58;47;47;104;58;56;47;100;47;118]) w_target /\
+  names_same_authority w_http w_auth w_u [] (w_http ++ SEP ++ w_auth ++ w_u) /\
+  rfc_resolve w_http w_auth w_u (B [104;116;116;112;58;47;47;111;58;56;47;100;47;118]) = Some (w_http, B [111;58;56], B [47;100;47;118]).
+Proof. exact spec_examples. Qed.
+Example C20_ex_normal_form_hypotheses :
+  strip_fragment (B [47;100;47;118]) = B [47;100;47;118] /\ remove_dot_segments (B [47;100;47;118]) = B [47;100;47;118] /\
+  forallb pg_PathChars (B [47;100;47;118]) = true /\ map lower w_http = w_http /\ map lower w_auth = w_auth.
+Proof. exact normal_form_examples. Qed.
+Example C20_ex_plain_forms_are_evicted :
+  store_has (evict_all (evicted_keys w_rq (w_rp (B [47;100;47;118]))) [(pg_METHOD_GET, w_target)]) (pg_METHOD_GET, w_target) = false /\
+  store_has (evict_all (evicted_keys w_rq (w_rp (B [104;116;116;112;58;47;47;104;58;56;47;100;47;118]))) [(pg_METHOD_GET, w_target)])
+            (pg_METHOD_GET, w_target) = false.
+Proof. exact plain_forms_evicted. Qed.
+Example C20_ex_method_tokens :
+  method_of_image true [80;79;83;84] = pg_METHOD_POST /\ method_of_image true [112;117;116] = pg_METHOD_PUT /\
+  method_of_image false [112;117;116] = pg_METHOD_OTHER /\ method_of_image true [80;65;84;67;72] = pg_METHOD_OTHER /\
+  purges_others (method_of_image true [79;80;84;73;79;78;83]) = false.
+Proof. exact method_token_examples. Qed.
